@@ -56,6 +56,90 @@ CLAIMED = {
         "not proved (full-matrix AdaGrad enters through a certified root). 'rank below sketch size => "
         "rho = 0' monitored, not proved.",
         "DESIGN.md 7/C16"),
+    "C01": (
+        "Coq proof in an arbitrary commutative ring (coupled Newton invariant, honesty of the reported "
+        "error, binary exponentiation, retry loop, masks) + trace simulation of every recorded loop "
+        "+ exact certificates computed in Coq",
+        "Theorems in Properties/C01.v (all sizes, exponents, iteration counts): mat_power = p-th power; "
+        "every Newton step keeps H^p*Ad = M, hence the reported error is exactly the residual of the "
+        "iterate and never understates the residual of the returned (blended) matrix; retry loop returns "
+        "the last attempt (ridge eps*10^(n-1)); padding masks are closed under the iteration; a Rayleigh "
+        "quotient never exceeds a bound of the form. Tie per run: lax.while_loop recorded under "
+        "disable_jit; sampled Newton transitions checked against the exact model step and every guard "
+        "decision replayed in Coq; for every returned root with error < 0.1, root_cert computes "
+        "X^p(A+dI)-I exactly (zero padding, symmetry, residual <= err+slack) and maxev_ok certifies the "
+        "eigenvalue estimate against a PSD-certified bound (verified LDL^T checker).",
+        "Trusted: Coq kernel + vm_compute; no axioms. NOT verified: float rounding of the iteration and "
+        "of eigh - the slack 2^-23 err + 2^-23 d max|X^p| + 64 n p u kappa_reg is an assumption "
+        "(constant frozen after calibration). LOBPCG-deflated variant not exercised. The eigh residual "
+        "identity is not proved (certificate only).",
+        "DESIGN.md 7/C01"),
+    "C03": (
+        "Coq proof over an IEEE special-value lattice (select gate, induction over fault histories) + "
+        "fault-injection correspondence through the public API with verdicts evaluated in Coq",
+        "Theorems in Properties/C03.v for all values/histories: select returns old or a root whose error "
+        "is finite and below the threshold (side conditions thr not NaN, err <> -Inf shown necessary by "
+        "a _refuted witness); non-refresh steps keep old for every threshold; the three quantized "
+        "selects move together; finite init + oracle hypothesis (finite error => finite root) => all "
+        "stored preconditioners finite along every history; the old arithmetic sharded blend is "
+        "refuted (0*NaN) and the where-select now in /repo satisfies the statement. Tie: NaN/Inf/0/"
+        "huge/tiny gradients injected at step subsets x thresholds x eps x Newton/eigh x replicated / "
+        "pmap-quantized / sharded; per transition Coq decides kept-vs-replaced from the observed error.",
+        "Trusted: Coq kernel + vm_compute; no axioms. The oracle hypothesis 'finite error => finite "
+        "root' is monitored on every refresh by direct kernel calls, not proved. Float magnitudes are "
+        "abstracted to Q + special values.",
+        "DESIGN.md 7/C03"),
+    "C10": (
+        "Coq proof (slot-disjointness by lia; ring identity for the compressed application; eigh as "
+        "Section hypothesis) + exact correspondence on integer data under x64",
+        "Theorems in Properties/C10.v: pack/unpack mutually inverse exactly when |r|+2<d (bound shown "
+        "tight), consistent with the translated _precond_dim/_should_compress; applying a packed "
+        "preconditioner along any axis equals multiplication by c(I-VV')+V diag(e) V' (ring identity, no "
+        "orthogonality), identity when flagged; _low_rank_root denotes the stated matrix for both signs "
+        "of r given an eigh answer (retained weights: _partial). Tie: pack/unpack layout for all d<=12, "
+        "_precondition_block vs dense on integer gradients of rank 1..3 every axis, _low_rank_root with "
+        "captured eigh.",
+        "Trusted: Coq kernel + vm_compute; no axioms; eigh is an oracle (spec hypothesis, answers "
+        "monitored); float comparison of _low_rank_root within 2^-44 relative.",
+        "DESIGN.md 7/C10"),
+    "C11": (
+        "Coq proof over Q and over a bit-exact binary32 model (Flocq BinarySingleNaN with FTZ/DAZ) + "
+        "bit-exact correspondence of integers, bucket bits and dequantized bits",
+        "Theorems in Properties/C11.v: Q model - |q|<=N (no wrap), half-bucket error, zeros/diagonal "
+        "exact, requantize fixed point; binary32 model - no_wrap_f32 and half_bucket_f32 (bound "
+        "bucket*(1/2+(3N+2)2^-24), hypotheses bucket>=2^-125, N*bucket<=2^127) for both XLA division "
+        "lowerings, zero and diagonal exactness; three _refuted witnesses (underflow, subnormal entry, "
+        "overflow) = the open known findings. requantize_fixed_f32 is validated, not proved. Tie: "
+        "QuantizedValue.from_float_value/to_float on generated float32 tensors, every exponent; stored "
+        "integers and bit patterns must equal the model's.",
+        "Trusted: Coq kernel + vm_compute; Flocq => stdlib axioms ClassicalDedekindReals.sig_not_dec, "
+        "sig_forall_dec, FunctionalExtensionality.functional_extensionality_dep, Classical_Prop.classic "
+        "(binary32 theorems only; Q theorems closed). XLA:CPU FTZ/DAZ and a/b -> a*(1/b) lowering are "
+        "modelled as observed.",
+        "DESIGN.md 7/C11"),
+    "C12": (
+        "Coq proof (induction over the gradient history with a reachable-state invariant) + exact "
+        "correspondence on integer histories",
+        "Theorems in Properties/C12.v for every shape of rank>=1, history and beta in (0,1]: the exact "
+        "decayed second moment is <= the min over the coordinate's accumulators; with beta=1 "
+        "accumulators never decrease in reachable states (refuted for an unreachable one); rank-1 SM3 "
+        "is diagonal AdaGrad/RMSProp; per-coordinate step <= AdaGrad's. The list-backed step executed by "
+        "the check is proved equal to the model step. Tie: sm3.sm3 through the public API, accumulators "
+        "and updates compared exactly (4-bit integer gradients, beta2 in {1,1/2}) or within 2^-17.",
+        "Trusted: Coq kernel + vm_compute; no axioms; sqrt in the update is compared in squared form.",
+        "DESIGN.md 7/C12"),
+    "C17": (
+        "Coq proof (budget invariant for an arbitrary clamped proposal function, over Z; exact-arithmetic "
+        "lemmas over Q) + integer correspondence against a binary32 model",
+        "Theorems in Properties/C17.v: for ANY proposal function, layers, scores, base rank the repaired "
+        "create_redist_dict assigns every sketched axis one rank in [1,dim] with per-group sum <= "
+        "group_size*rank and no assertion fires (independent of float rounding); create_groups "
+        "partitions axes by dimension; phase-1 exact-arithmetic budget; the ORIGINAL leftover loop is "
+        "refuted (dims 3,3,3 rank 2 scores (1,0,0) -> 7 > 6; fixed in /repo). Tie: create_redist_dict on "
+        "synthetic states, returned dictionary == binary32 model's on every instance.",
+        "Trusted: Coq kernel + vm_compute; headline theorem axiom-free; binary32 model lemmas via Flocq "
+        "(stdlib real axioms as in C11). score_fn float reductions observed, not modelled.",
+        "DESIGN.md 7/C17"),
 }
 
 NOT_YET = {}
